@@ -6,7 +6,7 @@
    of harness/props/c13.py. *)
 From Coq Require Import NArith List.
 Import ListNotations.
-From CXV Require Gen.TokTy Parse.Declarator Parse.BalancedThms Parse.DispatchLang Gen.Dispatch Parse.DispatchStaticAssertThms.
+From CXV Require Gen.TokTy Parse.Declarator Parse.BalancedThms Parse.DispatchLang Gen.Dispatch Parse.DispatchStaticAssertThms Parse.DispatchAttrThms.
 From CXV Require Import Gen.TokTy Gen.ParserTables Parse.Balanced Parse.BalancedThms.
 Open Scope N_scope.
 
@@ -62,6 +62,21 @@ Theorem static_assert_is_skipped_exactly : forall kw lp soup rp R ic,
   DispatchLang.run Dispatch.prog_consume_static_assert ic kw (lp :: soup ++ rp :: R) = DispatchLang.ODone R.
 Proof. exact DispatchStaticAssertThms.static_assert_skipped_exactly. Qed.
 Print Assumptions static_assert_is_skipped_exactly.
+
+(* vendor attributes, on the consumers as translated from the code that exists now: `__attribute__ (( soup ))` and
+   `__declspec ( soup )` consume exactly their parenthesized group for every strict-nested soup, and the dispatcher hands
+   every attribute introducer to its own consumer without consuming anything *)
+Theorem gcc_attribute_is_skipped_exactly : forall kw a1 a2 b1 b2 soup R ic,
+  Declarator.kty a1 = T_LIT_40 -> Declarator.kty a2 = T_LIT_40 -> Declarator.kty b1 = T_LIT_41 -> Declarator.kty b2 = T_LIT_41 ->
+  BalancedThms.SN Declarator.tk Declarator.kty soup ->
+  DispatchLang.run Dispatch.prog_consume_gcc_attribute ic kw (a1 :: a2 :: soup ++ b1 :: b2 :: R) = DispatchLang.ODone R.
+Proof. exact DispatchAttrThms.gcc_attribute_skipped_exactly. Qed.
+Theorem declspec_is_skipped_exactly : forall kw a b soup R ic,
+  Declarator.kty a = T_LIT_40 -> Declarator.kty b = T_LIT_41 -> BalancedThms.SN Declarator.tk Declarator.kty soup ->
+  DispatchLang.run Dispatch.prog_consume_declspec ic kw (a :: soup ++ b :: R) = DispatchLang.ODone R.
+Proof. exact DispatchAttrThms.declspec_skipped_exactly. Qed.
+Print Assumptions gcc_attribute_is_skipped_exactly.
+Print Assumptions declspec_is_skipped_exactly.
 
 (* non-vacuity: a concrete soup "( a < ( b > c ) [ ] )" meets the premises *)
 Example c13_nonvacuous :
